@@ -133,7 +133,7 @@ func (r *Reader) ReadPacketData() (data []byte, ci gopacket.CaptureInfo, err err
 	}
 	data = make([]byte, ci.CaptureLength)
 	_, err = io.ReadFull(r.r, data)
-	return data, ci, err
+	return data, ci, eofInRecord(err)
 }
 
 // ZeroCopyReadPacketData reads next packet from file. The data buffer is owned by the Reader,
@@ -163,7 +163,18 @@ func (r *Reader) ZeroCopyReadPacketData() (data []byte, ci gopacket.CaptureInfo,
 	}
 	data = r.packetBuf[:ci.CaptureLength]
 	_, err = io.ReadFull(r.r, data)
-	return data, ci, err
+	return data, ci, eofInRecord(err)
+}
+
+// eofInRecord maps io.EOF to io.ErrUnexpectedEOF. io.ReadFull reports io.EOF
+// when the stream ends before the first byte of the packet data, but at that
+// point the record header has already been consumed: the file is truncated in
+// the middle of a record. Only the start of a record may legitimately hit EOF.
+func eofInRecord(err error) error {
+	if err == io.EOF {
+		return io.ErrUnexpectedEOF
+	}
+	return err
 }
 
 func (r *Reader) readPacketHeader() (ci gopacket.CaptureInfo, err error) {
